@@ -159,7 +159,11 @@ class EffectivePotential(ABC):
 
             guess = guesses.getFieldPoint(i)
 
-            res = scipy.optimize.minimize(evaluateWrapper, guess, tol=tol)
+            # scipy's default gradient is a forward difference with an absolute step of
+            # 1.5e-8, which cannot resolve the minimum when the fields or the potential
+            # are large (the potential is dominated by its T^4 part). Use central
+            # differences with scipy's relative step instead.
+            res = scipy.optimize.minimize(evaluateWrapper, guess, jac="3-point", tol=tol)
 
             resLocation[i] = res.x
             resValue[i] = res.fun
